@@ -28,6 +28,19 @@ Theorem C12_retry_converges : forall e dn, shard_range e ->
 Proof. exact retry_converges. Qed.
 Print Assumptions C12_retry_converges.
 
+(* ... which is the state of the execution that suffers no fault ([erase h] = the same batches,
+   no fault armed): after the retry, the files and the reloaded haproxy of the execution that
+   suffered the faults are exactly the state the fault-free execution is in - as its own files are *)
+Theorem C12_retry_equals_fault_free : forall e dn, shard_range e ->
+  forall h, wf_hist e dn inst_empty h ->
+  forall l, wf_batch e dn (i_cfg (run_f e inst_empty h)) l ->
+    let faulty := fst (step_f e [] (run_f e inst_empty h) l) in
+    let faultfree := fst (step_f e [] (run_f e inst_empty (erase h)) l) in
+    disk_ok e (i_cfg faultfree) (i_disk faulty) /\ disk_ok e (i_cfg faultfree) (i_disk faultfree) /\
+    (inline e = true -> exists r, i_running faulty = Some r /\ disk_ok e (i_cfg faultfree) r).
+Proof. exact retry_equals_fault_free. Qed.
+Print Assumptions C12_retry_equals_fault_free.
+
 (* more generally: whatever faults are armed, an update that reports success has left files
    (and, inline, a running haproxy) that are exactly those of the current state *)
 Theorem C12_success_is_convergence : forall e dn, shard_range e ->
